@@ -29,6 +29,13 @@ fn flow_rules(kind: i64, res: String, tag: &str, changed: bool, thr: i64) -> Vec
         ..Default::default()
     };
     match kind {
+        3 => {
+            // warm-up on the resource window: 4 per second, period 1 s, default cold factor 3
+            // (warning line 2 tokens, maximum 4: cold allowance 1.33, warm after two to three busy seconds)
+            main.calculate_strategy = flow::CalculateStrategy::WarmUp;
+            main.warm_up_period_sec = 1;
+            main.threshold = if changed { 8.0 } else { 4.0 };
+        }
         1 => main.stat_interval_ms = 700,
         2 => {
             main.control_strategy = flow::ControlStrategy::Throttling;
@@ -129,7 +136,7 @@ fn rev<T>(mut v: Vec<T>) -> Vec<T> {
 /// `changed_a`: A's main rule with changed parameters; `with_c`: another resource C is present in this call.
 fn load(kind: i64, thr: i64, per_resource: bool, first: bool, fresh_a: bool, changed_a: bool, with_c: bool,
         keep: &mut (Vec<Arc<flow::Rule>>, Vec<Arc<hotspot::Rule>>, Vec<Arc<cb::Rule>>)) {
-    if kind <= 2 {
+    if kind <= 3 {
         let a = if fresh_a || changed_a { rev(flow_rules(kind, ra(), "n", changed_a, thr)) } else { flow_rules(kind, ra(), "a", false, thr) };
         if first {
             keep.0 = flow_rules(kind, rb(), "b", false, thr);
@@ -218,7 +225,7 @@ fn chain_of(kind: i64, full: bool) -> Arc<sentinel_core::base::SlotChain> {
         return sentinel_core::api::global_slot_chain();
     }
     match kind {
-        0 => slot_chain_of(slots::FLOW | slots::STAT_RESOURCE | slots::STAT_FLOW, None),
+        0 | 3 => slot_chain_of(slots::FLOW | slots::STAT_RESOURCE | slots::STAT_FLOW, None),
         1 => slot_chain_of(slots::FLOW | slots::STAT_FLOW, None),
         2 => slot_chain_of(slots::FLOW, None),
         4 | 5 => slot_chain_of(slots::HOTSPOT, None),
@@ -238,7 +245,7 @@ fn enter(res: String, chain: &Arc<sentinel_core::base::SlotChain>) -> Result<Ent
         .build()
 }
 
-/// shape: p0 = kind (0 flow default window, 1 flow private window, 2 flow throttling, 4 hotspot QPS reject, 5 hotspot throttling,
+/// shape: p0 = kind (0 flow default window, 1 flow private window, 2 flow throttling, 3 flow warm-up, 4 hotspot QPS reject, 5 hotspot throttling,
 /// 6 hotspot concurrency, 7 circuit breaker), p1 = 1: reload through load-for-resource (else load-all, with resource C
 /// appearing in the same call), p2 = steps before the reload, p3 = steps after it, p4 = 1: finally A's main rule is changed,
 /// p5 + 1 = threshold of the main QPS rule, p6 = bound on hash iterations that deviate from insertion order (0: unbounded), p7 = 1: complete global slot chain
@@ -263,7 +270,13 @@ pub fn c11_reload(s: Shape) {
             load(kind, thr, per_res, false, true, false, !per_res, &mut keep);
             vrt::cover("reloaded");
         }
-        t += vrt::any_u64("gap", 0, 600);
+        if kind == 3 {
+            // the warm-up refill multiplies the elapsed time in floating point: gaps from a small set
+            let g = vrt::any_u64("gap", 0, 2);
+            t += vrt::ite_u64(g == 0, 0, vrt::ite_u64(g == 1, 400, 1000));
+        } else {
+            t += vrt::any_u64("gap", 0, 600);
+        }
         clock::set_ns(t * 1_000_000);
         let ea = enter(ra(), &chain);
         let wait_a = clock::now_ns().unwrap() - t * 1_000_000;
@@ -309,7 +322,7 @@ pub fn c11_reload(s: Shape) {
         if kind == 7 {
             // the changed breaker rule (threshold 5) starts closed, whatever the old breaker's state was
             vrt::check(ea.is_ok(), "C11:changed-rule-not-in-effect");
-        } else if kind != 2 && kind != 5 {
+        } else if kind != 2 && kind != 3 && kind != 5 {
             vrt::check(ea.is_err(), "C11:changed-rule-not-in-effect");
         }
         if let Ok(e) = ea {
